@@ -18,8 +18,8 @@ from sfc_models.sector import Sector  # noqa
 ID = 'C06'
 LEVEL = 'model_checking'
 RULE = ('states = (F terms, INC terms, definitions of a and b, exclusions in force, reference ledger); transitions = one real API call: '
-        'AddCashFlow(term in 14 spellings incl. bracketed signs, products, quotient, number*name, empty and blank; eqn None|"q+1"; is_income T|F), '
-        'AddCashFlowIncomeExclusion(a|b|a*b), AddVariable(a|b, rhs in {"", 0.0, 0., 0, z, 2*z}); oracle after every transition: F == LAG_F + '
+        'AddCashFlow(term in 14 spellings incl. bracketed signs, products, quotient, number*name, empty and blank; eqn None|"q+1"|"-q*2+1"|"-(q-1)*2"; is_income T|F), '
+        'AddCashFlowIncomeExclusion(a|b|a*b), AddVariable(a|b, rhs in {"", 0.0, 0., 0, z, 2*z}), an exclusion / income flows registered on a sector with the SAME short code in a second country; oracle after every transition: F == LAG_F + '
         'signed sum, INC == signed sum of income flows not excluded when registered, flow-variable definition per the rule; the emitted '
         'Model.FinalEquations row of F and INC for states up to depth 2; non-trivial = histories with a repeat, a cancellation, an exclusion '
         'or a pre-existing definition')
@@ -49,8 +49,15 @@ def ops():
             out.append(['flow', t, None, inc])
             if t in NAME_TERMS:
                 out.append(['flow', t, 'q+1', inc])
+        if t in ('a', '-b'):
+            out.append(['flow', t, '-q*2+1', True])       # defining expressions that start with a sign
+            out.append(['flow', t, '-(q-1)*2', False])
     for name in ('a', 'b', 'a*b'):
         out.append(['excl', name])
+    # a sector with the same short code in a second country: what is registered for one must not touch the other
+    out.append(['twin-excl', 'a'])
+    out.append(['twin-flow', 'a', None, True])
+    out.append(['twin-flow', '-b', None, True])
     for v in ('a', 'b'):
         for rhs in PREDEFS:
             out.append(['def', v, rhs])
@@ -75,8 +82,14 @@ class Ref(object):
         self.INC = (Fraction(0),) * 3
         self.defs = {}          # var -> rhs text
         self.excl = set()
+        self.twin = None        # ledger of the same-coded sector in the second country
 
     def apply(self, op):
+        if op[0].startswith('twin'):
+            if self.twin is None:
+                self.twin = Ref()
+            self.twin.apply([op[0][5:]] + list(op[1:]))
+            return
         if op[0] == 'flow':
             t, eqn, inc = op[1], op[2], op[3]
             if t.strip() == '':
@@ -96,7 +109,7 @@ class Ref(object):
             self.defs[op[1]] = op[2]
 
     def key(self):
-        return (self.F, self.INC, tuple(sorted(self.defs.items())), tuple(sorted(self.excl)))
+        return (self.F, self.INC, tuple(sorted(self.defs.items())), tuple(sorted(self.excl)), self.twin.key() if self.twin else None)
 
 
 def is_zero(txt):
@@ -111,13 +124,21 @@ def build(history):
     m = Model()
     c = Country(m, 'CO')
     s = Sector(c, 'SEC', has_F=True)
+    twin = None
+    if any(op[0].startswith('twin') for op in history):
+        twin = Sector(Country(m, 'C2'), 'SEC', has_F=True)
     for op in history:
         if op[0] == 'flow':
             s.AddCashFlow(op[1], eqn=op[2], is_income=op[3])
         elif op[0] == 'excl':
             m.AddCashFlowIncomeExclusion(s, op[1])
+        elif op[0] == 'twin-excl':
+            m.AddCashFlowIncomeExclusion(twin, op[1])
+        elif op[0] == 'twin-flow':
+            twin.AddCashFlow(op[1], eqn=op[2], is_income=op[3])
         else:
             s.AddVariable(op[1], 'pre-existing definition', op[2])
+    s.Twin = twin
     return m, s
 
 
@@ -125,7 +146,8 @@ def impl_key(s):
     def tl(eq):
         return tuple((t.Term, t.Constant, t.IsBlob) for t in eq.TermList)
     defs = tuple((v, s.EquationBlock[v].RHS()) for v in ('a', 'b') if v in s.EquationBlock)
-    return (tl(s.EquationBlock['F']), tl(s.EquationBlock['INC']), defs)
+    tw = (tl(s.Twin.EquationBlock['F']), tl(s.Twin.EquationBlock['INC'])) if getattr(s, 'Twin', None) is not None else None
+    return (tl(s.EquationBlock['F']), tl(s.EquationBlock['INC']), defs, tw)
 
 
 def same_def(got, want):
@@ -160,6 +182,16 @@ def check_state(history, final_rows):
         if got != want:
             return core.violation(classify(var, history), '%s = %r evaluates to %s, ledger says %s' % (
                 var, rhs, [str(x) for x in got], [str(x) for x in want]), case), None, None
+    if ref.twin is not None:
+        for var, want in (('F', ref.twin.F), ('INC', ref.twin.INC)):
+            rhs = s.Twin.EquationBlock[var].RHS()
+            try:
+                got = values(rhs)
+            except Exception as e:
+                return core.violation('ledger-not-evaluable', 'twin %s = %r cannot be evaluated: %r' % (var, rhs, e), case), None, None
+            if got != want:
+                return core.violation('twin-sector:' + ('F-wrong' if var == 'F' else 'INC-wrong'), 'same-coded sector of the other country: %s = %r evaluates to %s, ledger says %s' % (
+                    var, rhs, [str(x) for x in got], [str(x) for x in want]), case), None, None
     for var in ('a', 'b'):
         want = ref.defs.get(var)
         if want is None:
@@ -179,14 +211,15 @@ def check_state(history, final_rows):
             pass
         blk = exact.read_block(m.FinalEquations)
         rows = dict(blk.endo)
-        for var, want in (('SEC__F', ref.F), ('SEC__INC', ref.INC)):
+        pre = 'CO_SEC__' if ref.twin is not None else 'SEC__'
+        for var, want in ((pre + 'F', ref.F), (pre + 'INC', ref.INC)):
             if var not in rows:
                 return core.violation('final-row-missing', '%s missing from FinalEquations' % var, case), None, None
             vals = []
             for v in VALS:
                 vv = dict(v)
                 for n in list(v):
-                    vv['SEC__' + n] = v[n]
+                    vv[pre + n] = v[n]
                 vals.append(exact.eval_at(rows[var], vv))
             if tuple(vals) != want:
                 return core.violation('final-equation-differs-from-ledger', '%s = %r evaluates to %s, ledger %s' % (
@@ -198,6 +231,8 @@ def classify(var, history):
     flows = [op for op in history if op[0] == 'flow' and op[1].strip()]
     bare = [BARE[op[1]] for op in flows]
     tag = 'F-wrong' if var == 'F' else 'INC-wrong'
+    if any(op[0].startswith('twin') for op in history):
+        return tag + ':with-same-coded-sector-elsewhere'
     if any(op[0] == 'excl' for op in history) and var == 'INC':
         return tag + ':with-exclusion'
     if len(set(bare)) < len(bare):
@@ -214,7 +249,7 @@ def classify_def(history, var, got, want):
 
 def nontrivial(history):
     flows = [BARE[op[1]] for op in history if op[0] == 'flow' and op[1].strip()]
-    return len(set(flows)) < len(flows) or any(op[0] in ('excl', 'def') for op in history)
+    return len(set(flows)) < len(flows) or any(op[0] in ('excl', 'def') or op[0].startswith('twin') for op in history)
 
 
 def units(tier):
